@@ -20,7 +20,7 @@ ENTRIES = ["take_step", "advance", "run_for", "get_parameter", "get_probabilitie
            "get_interval", "get_marginal", "mode", "save", "matrix_plot", "trace_plot", "plot_diagnostics"]
 FLOORS = {"key-agreement": 6, "reload-defined": 40, "save-defined": 5, "restored-value-flow": 4,
           "state-persisted": 7, "key-pairing": 4,
-          "stack-roundtrip": 2, "derived-consistent": 5}
+          "stack-roundtrip": 2, "derived-consistent": 5, "slot-reselected": 1}
 
 
 def load_context(prog, ci):
@@ -289,6 +289,76 @@ def _derived_consistent(prog, ci, cname, lfn, lc, call, var, rel):
                      slots={"derived_from": {p: sorted(v) for p, v in dep.items() if len(v) > 1}, "passed": sorted(passed)})
 
 
+def _slot_reselected(prog, pc, ld, var, rel):
+    """A bound-method slot (`self.proposal = self.<one of several>`) is chosen by selector methods from flag attributes.  load
+    builds a fresh object and overwrites the flags from the file: the selector must run after the last flag it reads has been
+    restored, or the reloaded object keeps the behaviour chosen for stale flags."""
+    slots = {}
+    for mname, fn in pc.methods.items():
+        if not fn.args.args:
+            continue
+        sn = fn.args.args[0].arg
+        for st in ast.walk(fn):
+            if isinstance(st, ast.Assign) and len(st.targets) == 1 and isinstance(st.targets[0], ast.Attribute) \
+                    and isinstance(st.targets[0].value, ast.Name) and st.targets[0].value.id == sn:
+                cands = [st.value.body, st.value.orelse] if isinstance(st.value, ast.IfExp) else [st.value]
+                if all(isinstance(v, ast.Attribute) and isinstance(v.value, ast.Name) and v.value.id == sn and v.attr in pc.methods
+                       for v in cands):
+                    slots.setdefault(st.targets[0].attr, set()).add(mname)
+    selectors = {m for ms in slots.values() for m in ms if m != "__init__"}
+    if not selectors:
+        raise AnalysisError("anchor vanished: no method of Parameter selects a bound-method slot")
+    # flags a selector reads: attributes of self loaded in its branch conditions
+    flags = set()
+    for m in selectors:
+        fn = pc.methods[m]
+        sn = fn.args.args[0].arg
+        for n in ast.walk(fn):
+            if isinstance(n, (ast.If, ast.IfExp)):
+                for a in ast.walk(n.test):
+                    if isinstance(a, ast.Attribute) and isinstance(a.value, ast.Name) and a.value.id == sn:
+                        flags.add(a.attr)
+    # methods (and property setters) that reach a selector / store a flag
+    def calls_selector(fn, seen=()):
+        sn = fn.args.args[0].arg
+        for n in ast.walk(fn):
+            if isinstance(n, ast.Call) and isinstance(n.func, ast.Attribute) and isinstance(n.func.value, ast.Name) and n.func.value.id == sn:
+                if n.func.attr in selectors:
+                    return True
+                sub = pc.methods.get(n.func.attr)
+                if sub is not None and n.func.attr not in seen and calls_selector(sub, seen + (n.func.attr,)):
+                    return True
+        return False
+    events = []          # (statement index, kind, what) in execution order of load's straight-line body
+    for i, st in enumerate(ld.body):
+        for n in ast.walk(st):
+            if isinstance(n, ast.Attribute) and isinstance(n.value, ast.Name) and n.value.id == var and isinstance(n.ctx, ast.Store):
+                setter = pc.methods.get(n.attr + ".setter")
+                if setter is not None:
+                    for a in prog.attrs_assigned_in(setter):
+                        if a in flags:
+                            events.append((i, "store", a))
+                    if calls_selector(setter):
+                        events.append((i, "select", n.attr + " (setter)"))
+                elif n.attr in flags:
+                    events.append((i, "store", n.attr))
+            if isinstance(n, ast.Call) and isinstance(n.func, ast.Attribute) and isinstance(n.func.value, ast.Name) and n.func.value.id == var:
+                m = pc.methods.get(n.func.attr)
+                if n.func.attr in selectors or (m is not None and calls_selector(m)):
+                    events.append((i, "select", n.func.attr))
+    stores = [(k, e) for k, e in enumerate(events) if e[1] == "store"]
+    selects = [k for k, e in enumerate(events) if e[1] == "select"]
+    stale = [e[2] for k, e in stores if not any(sk > k for sk in selects)]
+    msg = ""
+    if stale:
+        msg = (f"load restores the flags {sorted(set(stale))} after the last run of the slot selector "
+               f"({sorted(selectors)} choose {sorted(slots)} from {sorted(flags)}): the reloaded object keeps the method chosen for the "
+               f"stale flags, so it continues differently from the object that was saved")
+    return struct_ob("slot-reselected", f"{pc.module.name}.{pc.name}.load", bool(stores) and not stale, msg or "no flag restored", rel,
+                     ld.lineno, slots={"slots": sorted(slots), "selectors": sorted(selectors), "flags": sorted(flags),
+                                       "events": [f"{e[1]}:{e[2]}" for e in events]})
+
+
 def run(prog, tier):
     obs, info = [], []
     ts = Typestate(prog)
@@ -319,6 +389,7 @@ def run(prog, tier):
     obs.append(struct_ob("state-persisted", qual(pc, gi), not lost,
                          f"Parameter attributes mutated by stepping but not saved+restored: {lost}", rel, gi.lineno,
                          slots={"mutated": sorted(pwrites), "saved": len(saved_attrs), "restored": len(restored)}))
+    obs.append(_slot_reselected(prog, pc, ld, var, rel))
     es = prog.cls("EpsilonSelector")
     erel = es.module.relpath
     li = es.methods.get("load_items")
